@@ -618,3 +618,13 @@ func (vc *VC) havocPackageFields(st *State, pkg string) {
 		}
 	}
 }
+
+// namedInPkg: t (or what it points to) is a named type declared in package pkg.
+func namedInPkg(t types.Type, pkg string) bool {
+	t = types.Unalias(t)
+	if p, ok := t.(*types.Pointer); ok {
+		t = types.Unalias(p.Elem())
+	}
+	n, ok := t.(*types.Named)
+	return ok && n.Obj().Pkg() != nil && n.Obj().Pkg().Path() == pkg
+}
